@@ -178,7 +178,10 @@ CLAIMED = {
         "prettify(formatter=None) and the conformance of lxml / html.parser are trusted. MicroDVD texts exclude '|' as the property says."),
  "C04": dict(
    text=("Lean model of the DFXP/SAMI text-leaf rule (the pinned pattern ^(?:[\\n\\r]+\\s*)?(.+) with its backtracking, plus the wrapped-line remainder) with "
-         "theorems leaf_single_line (a one-line leaf is read verbatim, nothing decoded twice at this stage) and splitWs_no_space; executable models of the "
+         "theorems leaf_single_line (a one-line leaf is read verbatim, nothing decoded twice at this stage), leaf_indented (a leaf written on a line of its own - line feeds, "
+         "ANY indentation, the text, a line feed and the closing tag's indentation, the shape bs4.prettify and most authors produce - is read as exactly the text), "
+         "paragraph_lines_read / paragraph_lines_spellings (a <p> of any number of such leaves with <br/> between them is read as exactly these lines separated by "
+         "break nodes) and splitWs_no_space; executable models of the "
          "SRT, MicroDVD and WebVTT readers including WebVTT _decode (voice/other span patterns as specialised matchers for the pinned regex texts, "
          "'&amp;' replaced last), with the theorem vtt_line_roundtrip: for EVERY line without white space at its ends the reader's _decode of the writer's escaped "
          "form is the line itself (the six whole-string replace passes are shown to act token by token on escaped text). All five readers are run on documents produced by independent serialisers from an abstract caption with spelling variants "
